@@ -108,6 +108,9 @@ def run(ids):
         if rc != 0:
             results[sid] = {"status": "patch does not apply", "detail": out[-300:]}
             continue
+        # the check rewrites evidence/<prop>.json on every run; keep the record of the unchanged tree
+        evf = os.path.join(V, "evidence", prop + ".json")
+        evsave = open(evf).read() if os.path.exists(evf) else None
         try:
             t0 = time.time()
             props = [prop] if prop in PROPS else []
@@ -130,6 +133,8 @@ def run(ids):
             print(sid, "caught" if rec["caught_by_owner"] else "MISSED", {p: c["lines"][:1] for p, c in rec["checks"].items()})
         finally:
             sh("git -C /repo checkout -- .")
+            if evsave is not None:
+                open(evf, "w").write(evsave)
         json.dump(results, open(resf, "w"), indent=1)
 
 
